@@ -54,6 +54,9 @@ fn rank_fill(s: &mut Shader) {
     for d in &mut s.structs {
         d.snake = d.name.to_snake();
     }
+    for e in &mut s.entries {
+        e.upper = e.name.to_uppercase();
+    }
     // order- and equality-preserving small-integer abstraction of @group/@binding
     let mut gs: Vec<u64> = vec![];
     let mut bs: Vec<u64> = vec![];
